@@ -949,7 +949,8 @@ class FunctionPlugin(PrimitivePlugin):
         handled_names.update(static_params.keys())
         literal_map = getattr(ctx, "_call_input_param_literals", None)
         if isinstance(literal_map, dict):
-            for pname in call_param_names:
+            # Deterministic order: this loop fixes the order of function / graph inputs.
+            for pname in sorted(call_param_names):
                 if pname in handled_names:
                     continue
                 if pname not in literal_map:
